@@ -16,6 +16,7 @@ def gen_block(rng, kind):
     outstanding = set()
     closed = False
     awaiting = False          # last poll answered Pending
+    style_a = rng.random() < 0.5
     for _ in range(rng.randint(3, 9)):
         r = rng.random()
         if r < 0.4 or (not outstanding and not closed and r < 0.8):
@@ -33,8 +34,14 @@ def gen_block(rng, kind):
             continue
         if kind == "signals":
             may_block = not outstanding and not closed
-            op = rng.choice(["pending", "wait", "next", "next"])
+            # one family per block, as a consumer that "drains what it is handed" does: either pending / wait
+            # (each batch is drained completely by the probe) or forever().next() only. A `forever()` that is
+            # dropped after one item and followed by `wait()` has not drained what it was handed: the batch it
+            # abandoned had consumed the wake-up bytes of the signals it did not yield.
+            op = rng.choice(["pending", "wait", "wait"]) if style_a else "next"
             if may_block and op != "pending" and rng.random() < 0.9:
+                if not style_a:
+                    continue
                 op = "pending"
             ops.append(op)
             if op == "next":
